@@ -393,6 +393,10 @@ inline int log_faulty(Lg* lg, uint8_t kind, uint32_t tid, uint32_t seq)
   case 5: VF_LOG_RES(res, lg, quill::LogLevel::Info, "{}", Bomb{3, tid, seq}); break;
   case 6: VF_LOG_RES(res, lg, quill::LogLevel::Backtrace, "{}|{}|{}|{}", tid, seq, len, sv); break;   // no init_backtrace on this logger
   case 7: VF_LOG_RES(res, lg, quill::LogLevel::Info, "{}", Bomb{0, tid, seq}); break;                 // harmless user type
+  case 8: VF_LOG_RES(res, lg, quill::LogLevel::Info, "{tid}|{seq}|{len}|{pl}", tid, seq, len, sv); break; // harmless, named placeholders
+  case 9: VF_LOG_RES(res, lg, quill::LogLevel::Info, "{bomb}", Bomb{1, tid, seq}); break;            // named placeholder, formatter throws std
+  case 10: VF_LOG_RES(res, lg, quill::LogLevel::Info, "{bomb}", Bomb{2, tid, seq}); break;           // ... a non-std type
+  case 11: VF_LOG_RES(res, lg, quill::LogLevel::Info, "{bomb}", Bomb{3, tid, seq}); break;           // ... an int
   default: break;
   }
   return res;
@@ -413,15 +417,16 @@ inline bool faults_S(Rng& r, uint64_t idx)
   World* wp = &w;
   // history of N statements; every (position, kind) and every (sink, call index) is enumerated across scenarios
   uint32_t const N = 12;
-  bool const enumerate = idx < 12 * 7 + 3 * 14 * 2;
+  constexpr uint64_t KINDS = 11;
+  bool const enumerate = idx < 12 * KINDS + 3 * 14 * 2;
   int fault_pos = -1, fault_kind = 0, sink_fault = -1, sink_call = -1;
   bool sink_fault_flush = false;
   if (enumerate)
   {
-    if (idx < 12 * 7) { fault_pos = static_cast<int>(idx / 7); fault_kind = static_cast<int>(idx % 7) + 1; if (fault_kind == 7) fault_kind = 0; }
+    if (idx < 12 * KINDS) { fault_pos = static_cast<int>(idx / KINDS); fault_kind = static_cast<int>(idx % KINDS) + 1; }
     else
     {
-      uint64_t k = idx - 12 * 7;
+      uint64_t k = idx - 12 * KINDS;
       sink_fault = static_cast<int>(k % 3);
       sink_call = static_cast<int>((k / 3) % 14);
       sink_fault_flush = (k / 42) == 1;
@@ -431,7 +436,7 @@ inline bool faults_S(Rng& r, uint64_t idx)
   if (!enumerate)
   {
     uint32_t nf = static_cast<uint32_t>(r.range(1, 4));
-    for (uint32_t i = 0; i < nf; ++i) faults.emplace_back(static_cast<int>(r.below(N * 2)), static_cast<int>(r.range(1, 6)));
+    for (uint32_t i = 0; i < nf; ++i) faults.emplace_back(static_cast<int>(r.below(N * 2)), static_cast<int>(r.pick({1, 2, 3, 4, 5, 6, 9, 10, 11})));
     if (r.chance(1, 2)) { sink_fault = static_cast<int>(r.below(3)); sink_call = static_cast<int>(r.below(20)); sink_fault_flush = r.chance(1, 3); }
   }
   if (sink_fault >= 0)
@@ -454,15 +459,16 @@ inline bool faults_S(Rng& r, uint64_t idx)
     for (auto const& f : faults) if (f.first == static_cast<int>(i)) kind = f.second;
     SW* sp = &s;
     uint32_t seq = s.seq++;
+    if (!kind && (i % 3) == 2) kind = 8; // every third ordinary statement uses named placeholders
     if (kind)
     {
-      ++faults_injected;
+      if (kind != 7 && kind != 8) ++faults_injected;
       faulty_ids.insert({s.tid, seq});
       faulty_kind[{s.tid, seq}] = kind;
       run.run_on(s, [wp, sp, li, kind, seq]
                  {
                    Issue is;
-                   is.tid = sp->tid; is.seq = seq; is.logger = li; is.kind = (kind == 7) ? 0 : 9; is.len = 0; is.g_call = ticket();
+                   is.tid = sp->tid; is.seq = seq; is.logger = li; is.kind = (kind == 7 || kind == 8) ? 0 : 9; is.len = (kind == 8) ? 4 : 0; is.g_call = ticket();
                    is.res = static_cast<int8_t>(log_faulty(wp->loggers[li].lg, static_cast<uint8_t>(kind), sp->tid, seq));
                    is.g_ret = ticket();
                    sp->issues.push_back(is);
@@ -543,12 +549,41 @@ inline bool faults_S(Rng& r, uint64_t idx)
         if (p.ok && faulty_ids.count({p.tid, p.seq}))
         {
           int k = faulty_kind[{p.tid, p.seq}];
-          if (k != 7 && k != 0)
+          if (k != 7 && k != 8 && k != 0)
           {
             violation("C10", "faulty-statement-written-without-error-text", J{}.unum("tid", p.tid).unum("seq", p.seq).num("kind", k).str("msg", e.msg.substr(0, 120)).str("scenario", "faults_S"));
             ok = false;
             break;
           }
+        }
+      }
+    }
+    // named args belong to their own statement only: a plain statement never carries key/value pairs (a backend
+    // buffer slot reused after a faulted statement must not leak that statement's pairs), a named one carries its own
+    if (ok)
+    {
+      for (auto const& e : evs)
+      {
+        if (e.kind != 'w' || e.sink < w.sink_id_base || e.sink >= w.sink_id_base + w.sinks.size()) continue;
+        Parsed p = parse_msg(e.msg);
+        if (!p.ok) continue;
+        auto it = faulty_kind.find({p.tid, p.seq});
+        int const k = it == faulty_kind.end() ? 0 : it->second;
+        if (k == 8)
+        {
+          std::vector<std::pair<std::string, std::string>> want{{"tid", std::to_string(p.tid)}, {"seq", std::to_string(p.seq)}, {"len", "4"}, {"pl", payload(p.tid, p.seq, 4)}};
+          if (!e.has_named || e.named != want)
+          {
+            violation("C10", "named-args-of-statement-wrong-after-fault", J{}.unum("tid", p.tid).unum("seq", p.seq).unum("pairs", e.named.size()).str("first_key", e.named.empty() ? "" : e.named[0].first).str("scenario", "faults_S").raw("cfg", w.describe()));
+            ok = false;
+            break;
+          }
+        }
+        else if (e.has_named && !e.named.empty())
+        {
+          violation("C10", "plain-statement-carries-named-args-of-another-statement", J{}.unum("tid", p.tid).unum("seq", p.seq).str("stale_key", e.named[0].first).str("stale_value", e.named[0].second.substr(0, 40)).str("scenario", "faults_S").raw("cfg", w.describe()));
+          ok = false;
+          break;
         }
       }
     }
@@ -559,7 +594,6 @@ inline bool faults_S(Rng& r, uint64_t idx)
       for (auto const& n : recorder().notes_snapshot())
         if (n.second.find("Quill INFO") == std::string::npos) ++notes;
       size_t want = faults_injected;
-      for (auto const& kv : faulty_kind) if (kv.second == 7) --want;
       if (sink_fault >= 0)
       {
         auto& sk = *w.sinks[sink_fault];
